@@ -449,7 +449,30 @@ class SrcGen:
             return self.union()
         if c < 0.95 and self.has("dunion") and not no_named:
             return self.dunion(depth)
+        if c < 0.985 and self.has("ref") and self.has("array") and self.has("map") and not no_named:
+            return self.nested_collection(depth)
         return self.scalar()
+
+    def nested_collection(self, depth):
+        """collections of collections of structs, and named collections of structs: the shapes whose
+        generated strict decoder nests its array / map loops"""
+        r = self.rng
+        inner = self.named(depth + 1, "struct") if (not self.struct_defs or r.random() < 0.5) else \
+            {"k": "ref", "name": r.choice([n for n in self.struct_defs if n != "Root"] or self.struct_defs)}
+        if inner["name"] == "Root":
+            inner = self.named(depth + 1, "struct")
+        c = r.random()
+        if c < 0.3:
+            return {"k": "map", "of": {"k": "map", "of": inner}}
+        if c < 0.55:
+            return {"k": "array", "of": {"k": "array", "of": inner}}
+        if c < 0.7:
+            return {"k": "map", "of": {"k": "array", "of": inner}}
+        if c < 0.8:
+            return {"k": "array", "of": {"k": "map", "of": inner}}
+        name = self.fresh("L")
+        self.add_def(name, {"k": "array", "of": inner} if r.random() < 0.7 else {"k": "map", "of": inner})
+        return {"k": "ref", "name": name}
 
     def schema(self, pkg):
         self.defs, self.names, self.struct_defs = [], {"Root"}, []
